@@ -58,16 +58,15 @@ JobDeps(i) ==
 
 Ev(ev) == [ev |-> ev, exec |-> 1, stamp |-> 0, u |-> 0, idx |-> -1, k |-> 0, g |-> 2, toks |-> <<>>, out |-> "",
            kind |-> "", errs |-> <<>>, leaf |-> 0, name |-> "", same |-> FALSE, ctxok |-> TRUE, note |-> ""]
-RECURSIVE EmitAll(_, _, _, _, _, _)
-EmitAll(mon, l, kind, u, errs, same) ==
-  IF l > p.leaves THEN mon
-  ELSE EmitAll(MonStep(mon, [Ev("emit") EXCEPT !.leaf = l, !.kind = kind, !.u = u, !.errs = errs, !.same = same]),
-               l + 1, kind, u, errs, same)
-ParEmit(mon, kind, errs, same) == IF p.instr THEN EmitAll(mon, 1, kind, 0, errs, same) ELSE mon
-TaskEmit(mon, t, kind, errs) == IF U(t).instr THEN EmitAll(mon, 1, kind, t, errs, FALSE) ELSE mon
-RECURSIVE ArgEvents(_, _)
-ArgEvents(mon, k) == IF k > p.nargsexpr THEN mon
-                     ELSE ArgEvents(MonStep(mon, [Ev("arg") EXCEPT !.k = k, !.g = 1]), k + 1)
+\* every action feeds the monitor with the sequence of events it produces; ParallelTrace.tla matches the
+\* same sequences against the events recorded from the real code
+RECURSIVE Feed(_, _)
+Feed(mon, evs) == IF evs = <<>> THEN mon ELSE Feed(MonStep(mon, Head(evs)), Tail(evs))
+EmitSeq(kind, u, errs, same) ==
+  [l \in 1..p.leaves |-> [Ev("emit") EXCEPT !.leaf = l, !.kind = kind, !.u = u, !.errs = errs, !.same = same]]
+ParEmitSeq(kind, errs, same) == IF p.instr THEN EmitSeq(kind, 0, errs, same) ELSE <<>>
+TaskEmitSeq(t, kind, errs) == IF U(t).instr THEN EmitSeq(kind, t, errs, FALSE) ELSE <<>>
+PrologueEvs == [k \in 1..p.nargsexpr |-> [Ev("arg") EXCEPT !.k = k, !.g = 1]]
 
 Init ==
   /\ p \in RangeOf(Progs) /\ p.dir = "parallel"
@@ -82,7 +81,7 @@ Init ==
 \* prologue: every user expression (ctx, Concurrency, ContinueOnError, emitters, names, functions,
 \* collections) once, in source order, on the caller
 Prologue ==
-  /\ cpc = "pro" /\ m' = ArgEvents(m, 1) /\ cpc' = "enq"
+  /\ cpc = "pro" /\ m' = Feed(m, PrologueEvs) /\ cpc' = "enq"
   /\ UNCHANGED <<p, conc, coe, ei, js, jerr, pend, ran, ctx, stopped, serr, ret>>
 
 \* PA:66-76
@@ -134,25 +133,30 @@ ArgToks(i) ==
     [] u.kind = "melem" -> <<i[2], ElemTok(u.coll, i[2])>>                                                  \* PM:50-52
     [] OTHER -> <<>>
 
+BeginEvs(i) == <<[Ev("ustart") EXCEPT !.u = i[1], !.idx = i[2], !.toks = ArgToks(i)]>>
 Begin(i) ==
   /\ js[i] = "chk" /\ js' = [js EXCEPT ![i] = "running"]
-  /\ m' = MonStep(m, [Ev("ustart") EXCEPT !.u = i[1], !.idx = i[2], !.toks = ArgToks(i)])
+  /\ m' = Feed(m, BeginEvs(i))
   /\ UNCHANGED <<p, conc, coe, cpc, ei, jerr, pend, ran, ctx, stopped, serr, ret>>
 
 \* the function returns or panics; every job closure recovers (PT:116-122, PS:18-23, PS:39-44,
 \* PM:15-20, PM:37-42) and turns the panic into a PanicError; only Task functions have an emitter
+EndEvs(i, o) ==
+  LET u == U(i[1])
+      etok == <<IF o = "err" THEN "E" ELSE "P", UnitNum(i[1], i[2])>>
+  IN <<[Ev("uend") EXCEPT !.u = i[1], !.idx = i[2], !.out = o]>>
+     \o (IF u.kind = "ptask"
+         THEN TaskEmitSeq(u.id, CASE o = "ok" -> "TaskSuccess" [] o = "err" -> "TaskError" [] OTHER -> "TaskPanic",
+                          IF o = "ok" THEN <<>> ELSE <<etok>>) \o TaskEmitSeq(u.id, "TaskDone", <<>>)
+         ELSE <<>>)
 End(i, o) ==
   /\ js[i] = "running" /\ o \in {"ok", "err", "panic"}
   /\ (o = "err" => U(i[1]).haserr)
   /\ (IsElem(U(i[1])) => o \in OUTS)
   /\ LET u == U(i[1])
-         m1 == MonStep(m, [Ev("uend") EXCEPT !.u = i[1], !.idx = i[2], !.out = o])
          etok == <<IF o = "err" THEN "E" ELSE "P", UnitNum(i[1], i[2])>>
-     IN /\ IF u.kind = "ptask"
-           THEN /\ m' = TaskEmit(TaskEmit(m1, u.id, CASE o = "ok" -> "TaskSuccess" [] o = "err" -> "TaskError" [] OTHER -> "TaskPanic",
-                                          IF o = "ok" THEN <<>> ELSE <<etok>>), u.id, "TaskDone", <<>>)
-                /\ ran' = [ran EXCEPT ![u.id] = TRUE]
-           ELSE m' = m1 /\ UNCHANGED ran
+     IN /\ m' = Feed(m, EndEvs(i, o))
+        /\ IF u.kind = "ptask" THEN ran' = [ran EXCEPT ![u.id] = TRUE] ELSE UNCHANGED ran
         /\ pend' = [pend EXCEPT ![i] = IF o = "ok" THEN <<"ok">> ELSE <<"fail", etok>>]
   /\ js' = [js EXCEPT ![i] = "post"]
   /\ UNCHANGED <<p, conc, coe, cpc, ei, jerr, ctx, stopped, serr, ret>>
@@ -166,51 +170,57 @@ JobEnd(i) ==
   /\ UNCHANGED <<p, conc, coe, cpc, ei, pend, ran, ctx, stopped, ret, m>>
 
 ----------------------------------------------------------------------------
+WaitNilEvs == ParEmitSeq("ParallelSuccess", <<>>, FALSE)
+WaitErrEvs == ParEmitSeq("ParallelError", serr, TRUE)
+WaitCtxEvs == ParEmitSeq("ParallelError", <<<<"CTX", 0>>>>, TRUE)
 \* PA:78-83
 WaitNil ==
   /\ cpc = "wait" /\ stopped /\ serr = <<>> /\ ~CtxSeenDone
-  /\ m' = ParEmit(m, "ParallelSuccess", <<>>, FALSE)
+  /\ m' = Feed(m, WaitNilEvs)
   /\ ret' = <<"nil", <<>>>> /\ cpc' = "defer"
   /\ UNCHANGED <<p, conc, coe, ei, js, jerr, pend, ran, ctx, stopped, serr>>
 IsCtxOnly(es) == Len(es) = 1 /\ es[1][1] = "CTX"
 WaitErr ==
   /\ cpc = "wait" /\ stopped /\ serr # <<>>
-  /\ m' = ParEmit(m, "ParallelError", serr, TRUE)
+  /\ m' = Feed(m, WaitErrEvs)
   /\ ret' = IF IsCtxOnly(serr) THEN <<"ctx", <<>>>> ELSE <<"errs", serr>>
   /\ cpc' = "defer"
   /\ UNCHANGED <<p, conc, coe, ei, js, jerr, pend, ran, ctx, stopped, serr>>
 WaitCtx ==
   /\ cpc = "wait" /\ CtxSeenDone
-  /\ m' = ParEmit(m, "ParallelError", <<<<"CTX", 0>>>>, TRUE)
+  /\ m' = Feed(m, WaitCtxEvs)
   /\ ret' = <<"ctx", <<>>>> /\ cpc' = "defer"
   /\ UNCHANGED <<p, conc, coe, ei, js, jerr, pend, ran, ctx, stopped, serr>>
 
 \* deferred: PA:58-64 (TaskSkipped sweep), PA:45 (ParallelDone)
-RECURSIVE Sweep(_, _, _)
-Sweep(mon, us, errs) ==
-  IF us = <<>> THEN mon
+RECURSIVE SweepSeq(_, _)
+SweepSeq(us, errs) ==
+  IF us = <<>> THEN <<>>
   ELSE LET u == Head(us) IN
-       Sweep(IF u.kind = "ptask" /\ ~ran[u.id] THEN TaskEmit(mon, u.id, "TaskSkipped", errs) ELSE mon, Tail(us), errs)
+       (IF u.kind = "ptask" /\ ~ran[u.id] THEN TaskEmitSeq(u.id, "TaskSkipped", errs) ELSE <<>>) \o SweepSeq(Tail(us), errs)
+RetErrs == IF ret[1] = "nil" THEN <<<<"nil", 0>>>> ELSE IF ret[1] = "ctx" THEN <<<<"CTX", 0>>>> ELSE ret[2]
+DeferredEvs ==
+  SweepSeq(p.units, RetErrs) \o ParEmitSeq("ParallelDone", <<>>, FALSE)
+  \o <<[Ev("ret") EXCEPT !.kind = ret[1], !.errs = ret[2], !.toks = <<>>, !.g = 1]>>
 Deferred ==
   /\ cpc = "defer"
-  /\ LET errs == IF ret[1] = "nil" THEN <<<<"nil", 0>>>> ELSE IF ret[1] = "ctx" THEN <<<<"CTX", 0>>>> ELSE ret[2]
-         m2 == ParEmit(Sweep(m, p.units, errs), "ParallelDone", <<>>, FALSE)
-     IN m' = MonStep(m2, [Ev("ret") EXCEPT !.kind = ret[1], !.errs = ret[2], !.toks = <<>>, !.g = 1])
+  /\ m' = Feed(m, DeferredEvs)
   /\ cpc' = "returned"
   /\ UNCHANGED <<p, conc, coe, ei, js, jerr, pend, ran, ctx, stopped, serr, ret>>
 
 Over ==
   /\ cpc = "returned" /\ \A i \in I : js[i] \notin {"disp", "chk", "running", "post"}
-  /\ m' = MonStep(m, Ev("over")) /\ cpc' = "over"
+  /\ m' = Feed(m, <<Ev("over")>>) /\ cpc' = "over"
   /\ UNCHANGED <<p, conc, coe, ei, js, jerr, pend, ran, ctx, stopped, serr, ret>>
 
+CancelEndEvs == IF cpc = "over" THEN <<>> ELSE <<Ev("cancel")>>
 CancelBegin == /\ CANCEL /\ ctx = "live" /\ cpc # "over" /\ ctx' = "cancelling"
-               /\ m' = MonStep(m, Ev("cancel_begin"))
+               /\ m' = Feed(m, <<Ev("cancel_begin")>>)
                /\ UNCHANGED <<p, conc, coe, cpc, ei, js, jerr, pend, ran, stopped, serr, ret>>
 CancelClose == /\ ctx = "cancelling" /\ ctx' = "closed"
                /\ UNCHANGED <<p, conc, coe, cpc, ei, js, jerr, pend, ran, stopped, serr, ret, m>>
 CancelEnd ==   /\ ctx = "closed" /\ ctx' = "done"
-               /\ m' = IF cpc = "over" THEN m ELSE MonStep(m, Ev("cancel"))
+               /\ m' = Feed(m, CancelEndEvs)
                /\ UNCHANGED <<p, conc, coe, cpc, ei, js, jerr, pend, ran, stopped, serr, ret>>
 
 Done == cpc = "over" /\ ctx \in {"live", "done"} /\ UNCHANGED vars
